@@ -198,7 +198,7 @@ Qed.
 
 Lemma take_xt c0 s d k : 0 <= k -> take (xt key c0 s d) k = xt key c0 s (take d k).
 Proof.
-  intros Hk. unfold take. remember (Z.to_nat k) as n. clear Heqn Hk. revert s d.
+  intros Hk. rewrite ?take_raw; unfold take0. remember (Z.to_nat k) as n. clear Heqn Hk. revert s d.
   induction n as [|n IH]; intros s [|x d]; cbn [firstn xor_ks]; auto. now rewrite IH.
 Qed.
 
